@@ -249,3 +249,8 @@ Fixpoint c08s_from (cnt : list (string * nat)) (sends : list send_rec) (outs : l
   | _ :: tr' => c08s_from cnt sends outs (S i) tr'
   end.
 Definition C08s_mon (tr : list (directive * list obs)) : list viol := c08s_from [] [] [] 0 tr.
+
+(* the per-step monitor without the clause the pinned code violates (DESIGN D18), for the properties that only
+   need the dispatch clauses *)
+Definition C08_mon_no804 (tr : list (directive * list obs)) : list viol :=
+  filter (fun v => negb (fst v =? 804)) (C08_mon tr).
